@@ -292,6 +292,9 @@ def enum_grid(tier):
     for row, p, N, cplx, nfft in est.grid_points(lengths=(17, 40, 150)):
         for c in ({"mod": 1000.0, "phase": 0.0}, {"mod": 1e-3, "phase": math.pi if not cplx else 2.0}, {"mod": 3.0, "phase": math.pi if not cplx else 0.5}):
             yield {"row": row, "x": est.sanitize(row, est.grid_x(N, cplx, 21)), "params": p, "nfft": nfft, "c": c}
+        if nfft == N + 3:
+            # the record in large units (ADC counts) times the largest |c|
+            yield {"row": row, "x": dict(est.sanitize(row, est.grid_x(N, cplx, 22)), gain=2000.0), "params": p, "nfft": nfft, "c": {"mod": 1000.0, "phase": 0.0}}
 
 
 @sub("C03.grid", enum=enum_grid, exhaustive=True, shards_quick=4, shards_thorough=4,
